@@ -21,6 +21,7 @@ import (
 	"path/filepath"
 	"runtime"
 	"sort"
+	"strconv"
 	"strings"
 	"sync"
 	"testing"
@@ -226,6 +227,7 @@ func Flush() {
 // Main is the TestMain body shared by all packages.
 func Main(m *testing.M) {
 	setup()
+	go memoryBackstop()
 	code := m.Run()
 	Flush()
 	os.Exit(code)
@@ -321,17 +323,64 @@ func ReplayCase(test string, out any) (ok bool, err error) {
 func Watch(test, key string, limit time.Duration, c func() any, fn func()) {
 	done := make(chan struct{})
 	go func() {
-		select {
-		case <-done:
-		case <-time.After(limit):
-			SaveCase(test, key, fmt.Sprintf("step did not return within %s", limit), c())
-			fmt.Printf("VKIT-HANG test=%s key=%s\n", test, key)
-			Flush()
-			os.Exit(3)
+		deadline := time.After(limit)
+		tick := time.NewTicker(100 * time.Millisecond)
+		defer tick.Stop()
+		for {
+			select {
+			case <-done:
+				return
+			case <-deadline:
+				SaveCase(test, key, fmt.Sprintf("step did not return within %s", limit), c())
+				fmt.Printf("VKIT-HANG test=%s key=%s\n", test, key)
+				Flush()
+				os.Exit(3)
+			case <-tick.C:
+				// a step that does not terminate often allocates without
+				// bound (a walk over a corrupted ring appended to a slice):
+				// stop before the machine runs out of memory
+				if heap := heapInUse(); heap > MemLimit() {
+					SaveCase(test, key, fmt.Sprintf("step has not returned and the heap grew to %d MiB (limit %d MiB): a non-terminating, allocating loop", heap>>20, MemLimit()>>20), c())
+					fmt.Printf("VKIT-HANG test=%s key=%s\n", test, key)
+					Flush()
+					os.Exit(3)
+				}
+			}
 		}
 	}()
 	defer close(done)
 	fn()
+}
+
+func heapInUse() uint64 {
+	var ms runtime.MemStats
+	runtime.ReadMemStats(&ms)
+	return ms.HeapAlloc
+}
+
+// MemLimit is the heap size (bytes) beyond which a test process gives up:
+// VERIF_MEMLIMIT_MB, default 4096.
+func MemLimit() uint64 {
+	if v, err := strconv.Atoi(os.Getenv("VERIF_MEMLIMIT_MB")); err == nil && v > 0 {
+		return uint64(v) << 20
+	}
+	return 4096 << 20
+}
+
+// memoryBackstop ends the process (inconclusive for the driver unless a
+// Watch is active and reports the case first) when the heap exceeds twice
+// the limit: the sandbox has no memory limit of its own.
+func memoryBackstop() {
+	for {
+		time.Sleep(250 * time.Millisecond)
+		if heap := heapInUse(); heap > 2*MemLimit() {
+			fmt.Printf("VKIT-MEMORY heap %d MiB exceeds twice the limit of %d MiB; giving up\n", heap>>20, MemLimit()>>20)
+			buf := make([]byte, 1<<16)
+			fmt.Printf("%s\n", buf[:runtime.Stack(buf, true)])
+			Flush()
+			os.Exit(5)
+		}
+	}
 }
 
 // Guard runs fn; a panic that is not rapid's own control flow (raised by
